@@ -7,7 +7,7 @@
     download time: [OpenFile p], [HttpGet u] or [Reject k].  [run w st ops]
     gives the status and the events of every step of a history. *)
 From Coq Require Import List NArith.
-From AGH Require Import Base.Run Base.Bytes Base.PathClean Base.Glob Model.SafeFS Model.SafeFSConf Proofs.GlobCase Proofs.GlobClass Proofs.SafeFS Proofs.SafeFSClient Proofs.SafeFSConf.
+From AGH Require Import Base.Run Base.Bytes Base.PathClean Base.Glob Model.SafeFS Model.SafeFSConf Proofs.GlobCase Proofs.GlobClass Proofs.SafeFS Proofs.SafeFSClient Proofs.SafeFSConf Proofs.SafeFSSpelled.
 Import ListNotations.
 
 (** In every world, from every starting state (configured, planted or reached
@@ -402,3 +402,39 @@ Theorem C17_filling_differs_only_without_list : forall wd dflt y items,
   y = YSeq items -> load_filling wd dflt y = load wd dflt y.
 Proof. exact filling_differs_only_without_list. Qed.
 Print Assumptions C17_filling_differs_only_without_list.
+
+(** * Round 8: a local location is used as spelled
+
+    The design invariant: the string checked against the patterns and the
+    string opened are the same string, [clean loc]; percent signs are ordinary
+    bytes of a file name. *)
+Theorem C17_checked_path_is_opened_path : forall pats loc p,
+  reader pats loc = OpenFile p ->
+  is_abs loc = true /\ p = clean loc /\ path_matches_any pats (clean loc) = PmYes.
+Proof. exact checked_path_is_opened_path. Qed.
+Print Assumptions C17_checked_path_is_opened_path.
+
+(** The bytes read for a local location come from the file at the cleaned
+    spelled path only. *)
+Theorem C17_read_content_is_at_spelled_path : forall w loc m,
+  is_abs loc = true -> fetch w (reader (w_pats w) loc) = Some m ->
+  lookup (clean loc) (w_files w) = Some m /\ reader (w_pats w) loc = OpenFile (clean loc).
+Proof. exact read_content_is_at_spelled_path. Qed.
+Print Assumptions C17_read_content_is_at_spelled_path.
+
+Theorem C17_validated_path_is_checked_path : forall pats ex uok loc,
+  is_abs loc = true -> validate_url pats ex uok loc = None ->
+  ex (clean loc) = true /\ path_matches_any pats (clean loc) = PmYes.
+Proof. exact validated_path_is_checked_path. Qed.
+Print Assumptions C17_validated_path_is_checked_path.
+
+(** Percent-decoding between the check and the open (red-team change C17-O):
+    pattern /r/lists/*, location /r/lists/..%2Fsecret.txt: one element for the
+    matcher, /r/lists/../secret.txt = /r/secret.txt for the file system. *)
+Theorem C17_decode_between_check_and_open_refuted :
+  exists pats loc p,
+    reader_decoding pats loc = OpenFile p /\
+    p <> clean loc /\ clean p = ex_secret_file /\
+    ~ safe pats p /\ ~ safe pats (clean p).
+Proof. exact decode_between_check_and_open_refuted. Qed.
+Print Assumptions C17_decode_between_check_and_open_refuted.
